@@ -108,6 +108,17 @@ def run(repo, res, rule="MEMO", modfilter=None):
                                 m["stmt"].lineno))
         if not m["inputs"]:
             continue
+        # an input that a public getter hands out *by reference* can be edited in place from outside (`v = m.vertices; v *= s`): no
+        # writer of the attribute runs, so the memo cannot be invalidated
+        for c0 in repo.mro(cl):
+            for gname, g in c0.getters.items():
+                rets = [r for r in ast.walk(g) if isinstance(r, ast.Return) and r.value is not None]
+                for r in rets:
+                    a = _self_attr(r.value)
+                    if a in m["inputs"] and gname != m["getter"]:
+                        res.ob(f"{rule}:{label}:aliased-input:{a}", False, {"rule": rule, "memo": m["memo"], "input": a, "handed_out_by": f"{c0.name}.{gname}"})
+                        res.add(Finding(f"{rule}:aliased-input", rel, label, m["stmt"], f"memoises a value computed from `{a}`, which the getter `{c0.name}.{gname}` hands out by "
+                                        f"reference: an in-place edit of that array (`obj.{gname} *= s`) changes the input without invalidating `{m['memo']}`", m["stmt"].lineno))
         family = {c.name: c for c in repo.mro(cl)}
         for c in repo.subclasses(cl.name):
             family[c.name] = c
